@@ -90,6 +90,17 @@ _SAFE_BUILTINS = {
     "iter": lambda x: list(x),
 }
 _MAX_ITEMS = 70000
+_BM = {}
+
+
+def _bm(name):
+    if name not in _BM:
+        _BM[name] = ("builtin", name)
+    return _BM[name]
+
+
+_TYPES = {"int": int, "str": str, "tuple": tuple, "list": list, "bytes": bytes, "bytearray": bytearray, "bool": bool,
+          "float": float, "set": set, "frozenset": frozenset, "range": range}
 
 
 class Ev:
@@ -151,6 +162,36 @@ class Ev:
                 out.append(EnumMember(ci.name, name, val, attrs))
         return out
 
+    def module_built(self, mod, name):
+        """value of a module-level name that is built by several module-level statements (table filled by a loop, ...):
+        those statements are folded in order"""
+        cache = getattr(mod, "_built_cache", None)
+        if cache is None:
+            cache = mod._built_cache = {}
+        if name in cache:
+            if cache[name] is _BUILDING:
+                raise Unknown("recursive module-level definition of %s" % name)
+            if isinstance(cache[name], Unknown):
+                raise cache[name]
+            return cache[name]
+        cache[name] = _BUILDING
+        sub = self._mk(mod, {}, None, self.depth + 1)
+        try:
+            for st in mod.built[name]:
+                r = sub.run_stmt(st)
+                if r is not _FALL:
+                    raise Unknown("module-level statement returns")
+            if name not in sub.env:
+                raise Unknown("module-level name %s deleted or never bound" % name)
+        except Unknown as e:
+            cache[name] = e
+            raise
+        except Raised as e:
+            cache[name] = Unknown("module-level definition of %s raises %s" % (name, e.cls))
+            raise cache[name]
+        cache[name] = sub.env[name]
+        return cache[name]
+
     def is_enum(self, ci):
         return any(b == "Enum" for b in ci.bases)
 
@@ -170,6 +211,8 @@ class Ev:
         r = self.repo.lookup(self.mod, n.id)
         if r is not None:
             if r[0] == "const":
+                if n.id in getattr(r[2], "built", {}):
+                    return self.module_built(r[2], n.id)
                 return self._mk(r[2], depth=self.depth + 1).ev(r[1])
             if r[0] == "class":
                 return ClassRef(r[1])
@@ -178,7 +221,9 @@ class Ev:
         if n.id in ("True", "False", "None"):
             return {"True": True, "False": False, "None": None}[n.id]
         if n.id in _SAFE_BUILTINS:
-            return ("builtin", n.id)
+            return _bm(n.id)
+        if n.id in ("dict", "type", "isinstance", "NoneType"):
+            return _bm(n.id)
         raise Unknown("name %s" % n.id)
 
     def class_attr(self, ci, attr):
@@ -369,8 +414,45 @@ class Ev:
     def ev_GeneratorExp(self, n):
         return self.ev_ListComp(n)
 
+    def ev_SetComp(self, n):
+        return set(self.ev_ListComp(n))
+
+    def ev_DictComp(self, n):
+        out = []
+        self._comp(n, n.generators, self.env, out, ast.Tuple(elts=[n.key, n.value], ctx=ast.Load()))
+        d = {}
+        for k, v in out:
+            try:
+                d[k] = v
+            except TypeError:
+                raise Raised("TypeError", n)
+        return d
+
     def ev_JoinedStr(self, n):
-        raise Unknown("fstring")
+        out = ""
+        for v in n.values:
+            if isinstance(v, ast.Constant):
+                out += str(v.value)
+                continue
+            if not isinstance(v, ast.FormattedValue):
+                raise Unknown("fstring part")
+            val = self.ev(v.value)
+            if not isinstance(val, (int, str, bytes, float, bool, type(None), list, tuple)):
+                raise Unknown("fstring value %s" % type(val).__name__)
+            if v.conversion == 114:
+                val = repr(val)
+            elif v.conversion == 115:
+                val = str(val)
+            elif v.conversion == 97:
+                val = ascii(val)
+            spec = ""
+            if v.format_spec is not None:
+                spec = self.ev_JoinedStr(v.format_spec)
+            try:
+                out += format(val, spec)
+            except (ValueError, TypeError) as e:
+                raise Raised(type(e).__name__, n)
+        return out
 
     def ev_Call(self, n):
         if n.keywords and any(k.arg is None for k in n.keywords):
@@ -392,6 +474,22 @@ class Ev:
             else:
                 args.append(self.ev(a))
         kw = {k.arg: self.ev(k.value) for k in n.keywords}
+        if fname == "type" and len(args) == 1 and not kw:
+            tn = type(args[0]).__name__
+            if tn in _TYPES or tn == "NoneType":
+                return _bm(tn)
+            raise Unknown("type() of %s" % tn)
+        if fname == "isinstance" and len(args) == 2 and not kw:
+            ts = args[1] if isinstance(args[1], tuple) and not (len(args[1]) == 2 and args[1][0] == "builtin") else (args[1],)
+            py = []
+            for t in ts:
+                if isinstance(t, tuple) and len(t) == 2 and t[0] == "builtin" and t[1] in _TYPES:
+                    py.append(_TYPES[t[1]])
+                else:
+                    raise Unknown("isinstance type")
+            if isinstance(args[0], (EnumMember, ClassRef, Opaque, ReMatch)):
+                return False
+            return isinstance(args[0], tuple(py))
         # regular expressions with constant pattern and subject: pure library functions
         if fname in ("re.match", "re.fullmatch", "re.search") and not kw and len(args) == 2 \
                 and isinstance(args[0], str) and isinstance(args[1], str):
@@ -425,6 +523,14 @@ class Ev:
             return items
         if fname == "int.from_bytes":
             return int.from_bytes(*args, **kw)
+        # instance method of the object under evaluation: self.helper(...)
+        if isinstance(n.func, ast.Attribute) and isinstance(n.func.value, ast.Name) and n.func.value.id == "self" \
+                and "self" not in self.env and self.self_cls is not None and ast.unparse(n.func) not in self.env:
+            c_, m_ = self.repo.find_method(self.self_cls, n.func.attr)
+            if m_ is not None and not any(isinstance(d, ast.Name) and d.id in ("staticmethod", "classmethod", "property")
+                                          for d in m_.decorator_list):
+                bound = self._bindargs(m_, ["<self>"] + args, kw)
+                return self.call_func(m_, c_.mod, bound, self_cls=self.self_cls, writeback=True)
         f = None
         try:
             f = self.ev(n.func)
@@ -489,7 +595,31 @@ class Ev:
         if isinstance(recv, (bytes, bytearray)) and name in ("hex", "translate"):
             return getattr(recv, name)(*args, **kw)
         if isinstance(recv, (list, tuple)) and name in ("index", "count"):
-            return getattr(recv, name)(*args)
+            try:
+                return getattr(recv, name)(*args)
+            except ValueError:
+                raise Raised("ValueError", n)
+        if isinstance(recv, list) and name in ("append", "insert", "extend", "copy", "pop", "remove", "clear", "reverse", "sort") and not kw:
+            # a list held in the evaluation environment is a private value: in-place updates are modelled in place
+            try:
+                return getattr(recv, name)(*args)
+            except (IndexError, ValueError, TypeError) as e:
+                raise Raised(type(e).__name__, n)
+        if isinstance(recv, (bytes, bytearray)) and name == "decode":
+            try:
+                return recv.decode(*args, **kw)
+            except UnicodeDecodeError:
+                raise Raised("UnicodeDecodeError", n)
+        if isinstance(recv, (bytes, bytearray)) and name in ("startswith", "endswith", "strip", "split", "find"):
+            return getattr(recv, name)(*args, **kw)
+        if isinstance(recv, dict) and name in ("setdefault", "update", "pop", "clear", "copy") and not kw:
+            try:
+                return getattr(recv, name)(*args)
+            except (KeyError, TypeError) as e:
+                raise Raised(type(e).__name__, n)
+        if isinstance(recv, dict) and name in ("get", "keys", "values", "items") :
+            r_ = getattr(recv, name)(*args)
+            return list(r_) if name != "get" else r_
         raise Unknown("method %s" % name)
 
     def _bindargs(self, fd, args, kw):
@@ -513,18 +643,26 @@ class Ev:
         return env
 
     # -- pure function bodies ---------------------------------------------
-    def call_func(self, fd, mod, bound, self_cls=None):
+    def call_func(self, fd, mod, bound, self_cls=None, writeback=False):
         if self.depth > 12:
             raise Unknown("depth")
         env = dict(bound)
-        if env.get("self") == "<self>":
+        same_self = env.get("self") == "<self>"
+        if same_self:
             del env["self"]
             # facts about the same object stay visible (e.g. 'self.ver')
             for k, v in self.env.items():
                 if isinstance(k, str) and k.startswith("self."):
                     env.setdefault(k, v)
         sub = self._mk(mod, env, self_cls or self.self_cls, self.depth + 1)
-        r = sub.run_block(fd.body)
+        try:
+            r = sub.run_block(fd.body)
+        finally:
+            if same_self and writeback:
+                # attribute stores of the callee on the same object are visible to the caller
+                for k, v in sub.env.items():
+                    if isinstance(k, str) and k.startswith("self."):
+                        self.env[k] = v
         if r is _FALL:
             return None
         return r[1]
@@ -557,6 +695,14 @@ class Ev:
             for t in st.targets:
                 if isinstance(t, ast.Attribute):
                     self.env[ast.unparse(t)] = v
+                elif isinstance(t, ast.Subscript):
+                    base = self.ev(t.value)
+                    if not isinstance(base, (dict, list, bytearray)):
+                        raise Unknown("item store into %s" % type(base).__name__)
+                    try:
+                        base[self.ev(t.slice)] = v
+                    except (IndexError, TypeError, KeyError, ValueError) as e:
+                        raise Raised(type(e).__name__, st)
                 else:
                     self._bind(t, v, self.env)
             return _FALL
@@ -594,6 +740,27 @@ class Ev:
             raise Raised(cls, st)
         if isinstance(st, ast.Pass):
             return _FALL
+        if isinstance(st, ast.Delete):
+            for t in st.targets:
+                if isinstance(t, ast.Name) and t.id in self.env and not any(t.id == k for k in ()):
+                    # a deleted loop variable: keep other bindings
+                    if isinstance(self.env.get(t.id), (dict, list)) is False:
+                        del self.env[t.id]
+                elif isinstance(t, ast.Subscript):
+                    base = self.ev(t.value)
+                    try:
+                        del base[self.ev(t.slice)]
+                    except (KeyError, IndexError, TypeError) as e:
+                        raise Raised(type(e).__name__, st)
+            return _FALL
+        if isinstance(st, ast.Assert):
+            try:
+                ok = self.ev(st.test)
+            except Unknown:
+                return _FALL
+            if not ok:
+                raise Raised("AssertionError", st)
+            return _FALL
         if isinstance(st, ast.Try) and not st.finalbody:
             try:
                 r = self.run_block(st.body)
@@ -617,6 +784,7 @@ class Ev:
 
 
 _FALL = object()
+_BUILDING = object()
 
 _STR_METHODS = {"strip", "lstrip", "rstrip", "split", "rsplit", "startswith", "endswith", "lower", "upper", "isdigit",
                 "partition", "rpartition", "find", "rfind", "replace", "join", "encode", "isalnum", "isalpha",
